@@ -29,7 +29,8 @@ from .. import srcfacts
 PROPERTY = "C06"
 LEVEL = "proof"
 FACTS = ["objective_value_failure", "fail_return_value", "cbo_tell_prefixes", "cbo_tell_told", "cbo_ignore_literals",
-         "map_filter_failures", "opt_impute_names", "opt_mean_literals", "opt_failure_literals", "cbo_default_filter_failures"]
+         "map_filter_failures", "opt_impute_names", "opt_mean_literals", "opt_failure_literals", "cbo_default_filter_failures",
+         "fit_surrogate_told", "fit_surrogate_policy_literals"]
 TRUSTED = [
     "the objective scaler and the multi-objective scalarisation map finite values to finite values and keep the length "
     "(Section variables sc/scal of the model; the correspondence uses objective_scaler='identity' and the Linear scalarisation "
@@ -48,6 +49,7 @@ ASSUMPTIONS = [
     "over the batches actually told",
     "peer_searches never returns a scalar objective of exactly 0.0 (a peer skips a job whose stored output is falsy and search() then never ends: "
     "a hang outside C06, reported)",
+    "update_prior=True is not exercised (its KDE refit raises on a single observation whatever the objectives are; the mechanism is marked 'to be removed' in the source)",
     "multi-point asks other than the constant liar (qUCB, topk, boltzmann) and acq functions with per-second costs ('ps') are not modelled",
 ]
 RULE = ("on_done: k in 1..3 x return form {raw, dict, dict+metadata, output+metadata} x scalar/tuple/list x number flavour {py, np64, np32} x "
@@ -57,6 +59,7 @@ RULE = ("on_done: k in 1..3 x return form {raw, dict, dict+metadata, output+meta
         "F-string, nan, +inf, -inf, nan inside a tuple) x two labelings; non-trivial = the case contains at least one failure")
 
 F_ONDONE, F_OKROW, F_CBOTELL, F_FILTER, F_OPTRUN, F_OKFIT, F_OKLIE, F_OKSEARCH, F_REGEVO, F_RUN, F_ASKLIE, F_REPORTED = range(601, 613)
+F_RESTART = 613
 SEARCH_CLAUSE = {1: "exception", 2: "failed_row_not_marked", 3: "proposal_out_of_bounds", 4: "label_changed_proposals"}
 
 
@@ -168,11 +171,32 @@ def facts(repo):
             for left, op, right in _compares(_find_func(otree, "Optimizer", fname)):
                 for a, b in ((left, right), (right, left)):
                     s = _lit(a, optm)
-                    if s is not None and isinstance(b, ast.Name) and b.id in ("v", "y", "yi", "y_value"):
-                        fail_lits.append(s)
+                    if s is None:
+                        continue
+                    if isinstance(b, ast.Name):
+                        fail_lits.append(s)       # a told value / the history compared with a string
                         n_other += 1
+                    elif isinstance(b, ast.Attribute) and isinstance(b.value, ast.Name) and b.value.id == "self":
+                        continue                   # a configuration string (acq_func, acq_optimizer ...), not a told value
+                    else:                          # fail closed: a string test of a shape this translator does not know
+                        raise _Unrecognised("Optimizer.%s compares a string in an unknown way: %s" % (fname, ast.dump(b)[:80]))
         if n_other == 0:
             raise _Unrecognised("no failure test found in Optimizer._tell / _moo_scalarize")
+        # CBO.fit_surrogate: the marker told for the failed rows of a checkpoint, the policy test (after the repair F72)
+        fs = _find_func(tree, "CBO", "fit_surrogate")
+        fs_told, fs_ignore = [], []
+        for node in ast.walk(fs):
+            if isinstance(node, ast.BinOp) and isinstance(node.op, ast.Mult):
+                for side in (node.left, node.right):
+                    if isinstance(side, (ast.List, ast.Tuple)) and len(side.elts) == 1 and _lit(side.elts[0], cbo) is not None:
+                        fs_told.append(_lit(side.elts[0], cbo))
+        for left, op, right in _compares(fs):
+            for a, b in ((left, right), (right, left)):
+                s = _lit(a, cbo)
+                if s is not None and _mentions(b, "filter_failures"):
+                    fs_ignore.append(s)
+        if not fs_told:
+            raise _Unrecognised("CBO.fit_surrogate: the marker told for failed rows was not found")
     except _Unrecognised as e:
         return srcfacts.fail_closed(str(e)), {"error": str(e)}
     S, Ls = srcfacts.coq_string, srcfacts.coq_list
@@ -187,10 +211,12 @@ def facts(repo):
         "Definition opt_mean_literals : list string := %s.\n" % Ls([S(s) for s in mean_lits]),
         "Definition opt_failure_literals : list string := %s.\n" % Ls([S(s) for s in fail_lits]),
         "Definition cbo_default_filter_failures : string := %s.\n" % S(default_ff),
+        "Definition fit_surrogate_told : list string := %s.\n" % Ls([S(s) for s in fs_told]),
+        "Definition fit_surrogate_policy_literals : list string := %s.\n" % Ls([S(s) for s in fs_ignore]),
     ])
     info = dict(objective_value_failure=marker, fail_return_value=frv, cbo_tell_prefixes=prefixes, cbo_tell_told=told, cbo_ignore_literals=ignore,
                 map_filter_failures=mapff, opt_impute_names=impute, opt_mean_literals=mean_lits, opt_failure_literals=fail_lits,
-                cbo_default_filter_failures=default_ff)
+                cbo_default_filter_failures=default_ff, fit_surrogate_told=fs_told, fit_surrogate_policy_literals=fs_ignore)
     return text, info
 
 
@@ -222,7 +248,7 @@ def enc_f(x):
     return [0, fr.numerator, fr.denominator]
 
 
-def same_f(d, v):
+def same_f(d, v, atol=None):
     """model fnum d  vs  implementation float v: exact on dyadic values, within 2^-50 relative where the model divided by a count."""
     try:
         v = float(v)
@@ -240,6 +266,8 @@ def same_f(d, v):
     if q.denominator & (q.denominator - 1) == 0:
         return float(q) == v               # dyadic: exact
     # a mean over 3, 5, 6, 7 ... values: the code rounds once per division (twice for a cl_mean lie over imputed means)
+    if atol is not None:   # a mean over values of mixed sign: the rounding error is relative to the summands, not to the result
+        return abs(Fraction(v) - q) <= atol
     return abs(Fraction(v) - q) <= abs(q) * Fraction(1, 2 ** 50)
 
 
@@ -272,12 +300,12 @@ def enc_told(y):
     return [0, enc_f(y)]
 
 
-def same_told(d, y):
+def same_told(d, y, atol=None):
     if d[0] == 2:
         return isinstance(y, str) and y == MARKER
     if d[0] == 1:
-        return isinstance(y, (list, tuple)) and len(y) == len(d[1]) and all(same_f(a, b) for a, b in zip(d[1], y))
-    return not isinstance(y, (str, list, tuple)) and same_f(d[1], y)
+        return isinstance(y, (list, tuple)) and len(y) == len(d[1]) and all(same_f(a, b, atol) for a, b in zip(d[1], y))
+    return not isinstance(y, (str, list, tuple)) and same_f(d[1], y, atol)
 
 
 def show(y):
@@ -301,10 +329,16 @@ def to_py(spec, flavour="py"):
             return np.float32(x)
         if flavour == "int" and isinstance(x, float) and x.is_integer():
             return int(x)
+        if flavour == "np_int" and isinstance(x, float) and x.is_integer():
+            return np.int64(x)
+        if flavour == "bool" and x in (0.0, 1.0):
+            return bool(x)
         return float(x)
     if tag == "s":
         return v
-    seq = [to_py(e, flavour) for e in v]
+    # inside a tuple / list a python bool stands next to floats only as an int-like value: np.negative rejects an all-bool tuple
+    # (an objective vector of booleans is outside the property)
+    seq = [to_py(e, "int" if flavour == "bool" else flavour) for e in v]
     return tuple(seq) if tag == "t" else list(seq)
 
 
@@ -317,7 +351,19 @@ def spec_has_tuple_nonfinite(spec):
 
 
 def dyadic(rng, lo=-16, hi=16, q=4):
+    """Small dyadic value; exact zeros (falsy!), -0.0 and 1.0 (== True) are frequent on purpose."""
+    r = rng.random()
+    if r < 0.08:
+        return 0.0
+    if r < 0.10:
+        return -0.0
+    if r < 0.14:
+        return 1.0
     return rng.randint(lo * q, hi * q) / q
+
+
+FLAVOURS = ["py", "py", "np64", "np32", "int", "np_int", "bool"]
+EXPS = [0, 0, 0, -40, 40]     # one common power-of-two factor per case: exact in binary64, exposes absolute tolerances / magnitude tests
 
 
 # ------------------------------------------------------------------------------------------------------------------
@@ -368,7 +414,7 @@ def gen_ondone(count):
                     spec = [rng.choice(["t", "l"]), [gen_elem(rng, 0.3)]]
             else:
                 spec = [rng.choice(["t", "l"]), [gen_elem(rng, rng.choice([0.0, 0.2, 0.5])) for _ in range(k)]]
-            yield dict(k=k, form=rng.choice(["raw", "raw", "dict", "dict_meta", "output_meta"]), obj=spec, flavour=rng.choice(["py", "py", "np64", "np32", "int"]))
+            yield dict(k=k, form=rng.choice(["raw", "raw", "dict", "dict_meta", "output_meta"]), obj=spec, flavour=rng.choice(FLAVOURS))
     return g
 
 
@@ -496,8 +542,17 @@ def gen_cbotell(count):
                 batch.append(["s", rng.choice(["X_other", "error"])])
             if rng.random() < 0.1 and k > 1:
                 batch.append(["t", [["n", 1.0]] * (k - 1) + [["s", "F_in_tuple"]]])
-            yield dict(ff=rng.choice(["min", "mean", "ignore"]), k=k, batch=batch)
+            yield dict(ff=rng.choice(["min", "mean", "ignore"]), k=k, batch=batch, flavour=rng.choice(FLAVOURS), exp=rng.choice(EXPS))
     return g
+
+
+def scale_spec(spec, exp):
+    tag, v = spec
+    if tag == "n":
+        return spec if isinstance(v, str) else ["n", v * 2.0 ** exp]
+    if tag == "s":
+        return spec
+    return [tag, [scale_spec(e, exp) for e in v]]
 
 
 def check_cbotell(case):
@@ -507,17 +562,23 @@ def check_cbotell(case):
     spy = _SpyOpt()
     s._opt = spy
     toks = Toks()
-    objs = [to_py(b) for b in case["batch"]]
+    objs = [to_py(scale_spec(b, case.get("exp", 0)), case.get("flavour", "py")) for b in case["batch"]]
     jobs = []
     for i, o in enumerate(objs):
         j = HPOJob("0.%d" % i, {"x": float(i), "c": "a"}, None, None)
-        j.output = {"objective": o}
+        j.set_output(o)       # as the evaluator does: a scalar number becomes a float, tuple / list elements keep their type
         jobs.append(j)
+    objs = [j.objective for j in jobs]
+    before = [repr(j.output) + repr(j.args) for j in jobs]
     s._tell(jobs)
+    handed_over_mutated = before != [repr(j.output) + repr(j.args) for j in jobs]
     want = model().call(F_CBOTELL, [{"min": 0, "mean": 1, "ignore": 2}[case["ff"]], [enc_obj(o, toks) for o in objs]])
     nfail = sum(1 for w in want if w[0] == 2)
     res = dict(ok=True, kind="corr", clause="", nontrivial=any(b[0] == "s" or is_nonfinite(b) or spec_has_tuple_nonfinite(b) for b in case["batch"]),
                sig={"ff": case["ff"]}, desc=["ff=" + case["ff"], "k=%d" % case["k"], "told_failures=%d" % min(nfail, 3), "dropped=%d" % min(len(objs) - len(want), 3)])
+    res["desc"] = res["desc"] + ["flavour=" + case.get("flavour", "py"), "exp=%d" % case.get("exp", 0)]
+    if handed_over_mutated:
+        return dict(res, ok=False, clause="jobs_mutated_by_tell", detail=dict(before=before, after=[repr(j.output) for j in jobs]))
     if not want:
         if spy.calls:
             return dict(res, ok=False, clause="told_when_nothing_left", detail=dict(calls=show(spy.calls)))
@@ -560,12 +621,13 @@ def gen_told(rng, m, p_fail, allow_nonfinite=False):
     return one() if m == 0 else [one() for _ in range(m)]
 
 
-def told_py(t):
+def told_py(t, exp=0):
+    f = 2.0 ** exp
     if t == "F":
         return "F"
     if isinstance(t, list):
-        return [NUMS[v] if isinstance(v, str) else float(v) for v in t]
-    return NUMS[t] if isinstance(t, str) else float(t)
+        return [NUMS[v] if isinstance(v, str) else float(v) * f for v in t]
+    return NUMS[t] if isinstance(t, str) else float(t) * f
 
 
 def gen_filter(count):
@@ -575,7 +637,7 @@ def gen_filter(count):
             m = rng.choice([0, 0, 2, 3])
             nf = rng.random() < 0.15
             ys = [gen_told(rng, m, rng.choice([0.2, 0.5, 1.0]), nf) for _ in range(rng.randint(1, 6))]
-            yield dict(pol=rng.choice(["mean", "max", "ignore"]), maxf=rng.choice([1, 2, 3, 100]), m=m, ys=ys)
+            yield dict(pol=rng.choice(["mean", "max", "ignore"]), maxf=rng.choice([1, 2, 3, 100]), m=m, ys=ys, exp=rng.choice(EXPS))
     return g
 
 
@@ -586,7 +648,7 @@ def check_filter(case):
     from deephyper.skopt.optimizer.optimizer import ExhaustedFailures
 
     opt = _optimizer(case["pol"], case["maxf"])
-    ys = [told_py(t) for t in case["ys"]]
+    ys = [told_py(t, case.get("exp", 0)) for t in case["ys"]]
     finite_in = all(math.isfinite(v) for t in ys if t != "F" for v in (t if isinstance(t, list) else [t]))
     m = model()
     enc = [enc_told(t) for t in ys]
@@ -594,12 +656,15 @@ def check_filter(case):
     nfail = sum(1 for t in ys if t == "F")
     res = dict(ok=True, kind="corr", clause="", nontrivial=nfail > 0, sig={"vector": case["m"] > 0},
                desc=["pol=" + case["pol"], "shape=%d" % case["m"], "failures=" + ("none" if nfail == 0 else "all" if nfail == len(ys) else "some"), "exhausted" if not want else "ok"])
+    arg = [list(t) if isinstance(t, list) else t for t in ys]
     try:
-        out = opt._filter_failures(list(ys))
+        out = opt._filter_failures(arg)
     except ExhaustedFailures:
         if want:
             return dict(res, ok=False, clause="exhausted_unexpected", detail=dict(case=case, model=want))
         return res
+    if repr(arg) != repr(ys):   # the optimizer passes its own yi: imputing in place would make failures disappear from the history
+        return dict(res, ok=False, clause="input_mutated", detail=dict(told=show(ys), after=show(arg)))
     if not want:
         return dict(res, ok=False, clause="exhausted_expected", detail=dict(case=case, impl=show(out)))
     if case["pol"] != "ignore" and finite_in and nfail < len(ys) and not m.call(F_OKLIE, [enc_told(t) for t in out]):
@@ -657,7 +722,7 @@ def gen_opttell(count):
             pf = rng.choice([0.0, 0.3, 0.6, 1.0]) if pol != "ignore" else rng.choice([0.0, 0.0, 0.0, 0.3])
             batches = [[gen_told(rng, m, pf) for _ in range(rng.randint(1, 3))] for _ in range(rng.randint(1, 4))]
             yield dict(pol=pol, maxf=rng.choice([1, 2, 3, 100]), n0=rng.choice([0, 1, 1, 2, 3]), m=m,
-                       weights=[rng.randint(1, 8) for _ in range(m)], batches=batches, liar=rng.choice(["cl_min", "cl_mean", "cl_max"]))
+                       weights=[rng.randint(1, 8) for _ in range(m)], batches=batches, liar=rng.choice(["cl_min", "cl_mean", "cl_max"]), exp=rng.choice(EXPS))
     return g
 
 
@@ -668,7 +733,7 @@ def check_opttell(case):
     m = model()
     w = [a / 8 for a in case["weights"]]
     opt = _optimizer(case["pol"], case["maxf"], case["n0"], w if case["m"] else None, _spy_estimator())
-    batches = [[told_py(t) for t in b] for b in case["batches"]]
+    batches = [[told_py(t, case.get("exp", 0)) for t in b] for b in case["batches"]]
     trace = m.call(F_OPTRUN, [True, _POL[case["pol"]], case["maxf"], case["n0"], [[a, 8] for a in case["weights"]], [[enc_told(t) for t in b] for b in batches]])
     allf = [t for b in batches for t in b]
     nfail = sum(1 for t in allf if t == "F")
@@ -712,6 +777,10 @@ def check_opttell(case):
             fitted = True
         if opt._n_initial_points != ninit:
             return dict(res, ok=False, clause="n_initial_points", detail=dict(case=case, impl=opt._n_initial_points, model=ninit))
+    # the history is kept as told: no imputed / scaled value is written back into yi, the caller's lists are left alone
+    told_all = [told_py(t, case.get("exp", 0)) for b in case["batches"] for t in b]
+    if repr(list(opt.yi)) != repr(told_all) or repr(batches) != repr([[told_py(t, case.get("exp", 0)) for t in b] for b in case["batches"]]):
+        return dict(res, ok=False, clause="history_mutated", detail=dict(case=case, yi=show(list(opt.yi)), told=show(told_all)))
     # the first constant-liar lie of a 2-point ask (computed from _filter_failures(yi))
     if fitted and case["pol"] != "ignore":
         yi = [t for b in batches for t in b]
@@ -736,7 +805,8 @@ def check_opttell(case):
         if lie[0] == 0:
             if exc or not _LIES:
                 return dict(res, ok=False, kind="oracle", clause="multi_point_ask_failed", detail=dict(case=case, exc=exc, model=lie))
-            if not same_told(lie[1], _LIES[0]):
+            mags = [abs(v) for t in yi if t != "F" for v in (t if isinstance(t, list) else [t])]
+            if not same_told(lie[1], _LIES[0], atol=Fraction(max(mags + [0.0])) * Fraction(1, 2 ** 46)):
                 return dict(res, ok=False, clause="lie_value", detail=dict(case=case, impl=show(_LIES[0]), model=lie))
         elif exc is None:
             return dict(res, ok=False, clause="lie_error_expected", detail=dict(case=case, model=lie, impl=show(_LIES)))
@@ -835,6 +905,34 @@ def pattern_outputs(case, labeling):
     return outs
 
 
+# non-default configurations (second entry points of the same failure handling): name -> CBO keyword arguments
+OPTIONS = {
+    "mps=cl_min": dict(multi_point_strategy="cl_min"), "mps=cl_mean": dict(multi_point_strategy="cl_mean"), "mps=qUCB": dict(multi_point_strategy="qUCB"),
+    "mps=qUCBd": dict(multi_point_strategy="qUCBd"), "mps=topk": dict(multi_point_strategy="topk"), "mps=boltzmann": dict(multi_point_strategy="boltzmann"),
+    "acq=UCB": dict(acq_func="UCB"), "acq=EI": dict(acq_func="EI"), "acq=PI": dict(acq_func="PI"), "acq=MES": dict(acq_func="MES"), "acq=gp_hedge": dict(acq_func="gp_hedge"),
+    "acq=EId": dict(acq_func="EId"),
+    "scaler=identity": dict(objective_scaler="identity"), "scaler=minmax": dict(objective_scaler="minmax"), "scaler=quantile-uniform": dict(objective_scaler="quantile-uniform"),
+    "scaler=log": dict(objective_scaler="log"), "scaler=minmaxlog": dict(objective_scaler="minmaxlog"),
+    "moo=Linear": dict(moo_scalarization_strategy="Linear"), "moo=AugChebyshev": dict(moo_scalarization_strategy="AugChebyshev"), "moo=PBI": dict(moo_scalarization_strategy="PBI"),
+    "moo=Quadratic": dict(moo_scalarization_strategy="Quadratic"), "moo_lower_bounds": "moo_lb",
+    "acq_optimizer=ga": dict(acq_optimizer="ga"), "acq_optimizer=mixedga": dict(acq_optimizer="mixedga"),
+    "max_failures=1": dict(max_failures=1), "kappa=0": dict(kappa=0.0), "gather=ALL": "gather_all", "initial_points": "initial_points",
+    "scheduler=decay": dict(scheduler={"type": "periodic-exp-decay", "period": 4, "kappa_final": 0.1}),
+    "surrogate=TB": dict(surrogate_model="TB"), "surrogate=RS": dict(surrogate_model="RS"),
+}
+
+
+def option_kwargs(name, k):
+    v = OPTIONS[name]
+    if v == "moo_lb":
+        return dict(moo_lower_bounds=[0.5] + [None] * (k - 1))
+    if v == "initial_points":
+        return dict(initial_points=[{"x": 1.0, "n": 1, "c": "a"}, {"x": 2.5, "n": 2, "c": "b"}])
+    if v == "gather_all":
+        return {}
+    return dict(v)
+
+
 def run_search(case, labeling):
     """One real search.  Returns dict(exc, rows, props, batches, yi, ninit)."""
     import numpy as np
@@ -867,7 +965,11 @@ def run_search(case, labeling):
                 kw["surrogate_model_kwargs"] = dict(n_estimators=8)
             if case["surrogate"] == "GP":
                 kw["acq_func"] = "UCB"   # the default UCBd is not supported by GP (finding F04 of C02)
+            if case.get("option"):
+                kw.update(option_kwargs(case["option"], k))
             s = CBO(p, ev, random_state=case["seed"], log_dir=d, **kw)
+            if case.get("option") == "gather=ALL":
+                s.gather_type = "ALL"
         elif cls == "RegularizedEvolution":
             s = RegularizedEvolution(p, ev, random_state=case["seed"], log_dir=d, population_size=3, sample_size=2)
         else:
@@ -879,8 +981,14 @@ def run_search(case, labeling):
             return orig_tell(results)
 
         s.tell = tell
+        # the evaluations are spread over 1..3 search() calls on the same object (state that survives between calls)
+        calls = case.get("calls") or [len(outs) + 1]
         try:
-            df = s.search(max_evals=len(outs) + 1)
+            for ci, n in enumerate(calls):
+                df = s.search(max_evals=n)
+                if ci == 0:
+                    cols = [c for c in df.columns if c == "objective" or c.startswith("objective_")]
+                    out["first_call_all_failed"] = len(df) > 0 and all(isinstance(r[c], str) and r[c].startswith("F") for _, r in df.iterrows() for c in cols)
         except Exception as e:
             import traceback
 
@@ -918,7 +1026,8 @@ def check_search(case):
     shape = "none" if nfail == 0 else "only" if nfail == len(kinds) else "first" if kinds[0] != "ok" else "mixed"
     res = dict(ok=True, kind="oracle", clause="", nontrivial=nfail > 0, sig=sig,
                desc=["search=" + case["search"], "surrogate=" + str(case.get("surrogate")), "ff=" + str(case.get("ff")), "objectives=" + sig["objectives"],
-                     "workers=%d" % case["workers"], "failures=" + shape] + sorted(set("kind=" + kd for kd in kinds if kd != "ok")))
+                     "workers=%d" % case["workers"], "failures=" + shape, "calls=%d" % len(case.get("calls") or [0]), "option=" + str(case.get("option"))]
+               + sorted(set("kind=" + kd for kd in kinds if kd != "ok")))
     r1 = run_search(case, 0)
     r2 = run_search(case, 1) if r1["exc"] is None else r1
     raised = r1["exc"] or r2["exc"]
@@ -942,7 +1051,8 @@ def check_search(case):
             clause = "exception:" + raised
         detail = dict(outputs=show(outs1), exc=raised, trace=(r1.get("trace") or r2.get("trace")), table=r1.get("cells"), failed_jobs=failed,
                       proposals_labeling_1=r1.get("props"), proposals_labeling_2=r2.get("props"))
-        return dict(res, ok=False, clause=clause, detail=detail)
+        sig = dict(sig, first_call_all_failed=bool(len(case.get("calls") or []) > 1 and (r1.get("first_call_all_failed") or r2.get("first_call_all_failed"))))
+        return dict(res, ok=False, clause=clause, detail=detail, sig=sig)
     # correspondence: what the optimizer holds after the search = the model's run over the batches told
     if case["search"] == "CBO":
         hist = [[enc_obj(outs1[j] if j < len(outs1) else (1.0 if case["k"] == 1 else tuple([1.0] * case["k"])), toks) for j in b] for b in r1["batches"]]
@@ -983,16 +1093,31 @@ def gen_searches(quick_n, thorough_n):
         th = tier == "thorough"
         n = thorough_n if th else quick_n * 2 if tier == "search" else quick_n
         surrogates = ["DUMMY", "ET", "ET", "RF", "GP"] if th else ["DUMMY", "ET", "ET"]
+        # option sweep: every non-default configuration at least once (thorough: 4 times), failures after the first success
+        for rep_ in range(4 if th else 1):
+            for j, name in enumerate(sorted(OPTIONS)):
+                k = 2 if (name.startswith("moo") or j % 2) else 1
+                kinds = ["str", "nan", "inf", "-inf"] + (["tuple_nan"] if k > 1 else [])
+                yield dict(search="CBO", k=k, workers=2 if (name.startswith("mps") or name == "gather=ALL" or j % 3 == 0) else 1, seed=rng.randint(0, 10 ** 6),
+                           pattern=gen_pattern(rng, k, rng.randint(5, 7), "mixed", kinds), surrogate="ET", ff=["min", "mean", "ignore"][(j + rep_) % 3], n0=2, option=name)
         for i in range(n):
             r = i % 10
             search = "CBO" if r < 7 else "RegularizedEvolution" if r < 9 else "RandomSearch"
-            k = 1 if search == "RegularizedEvolution" else rng.choice([1, 2, 2, 3] if th else [1, 2])
+            k = 1 if search == "RegularizedEvolution" else rng.choice([1, 2, 2, 3] if th else [1, 2, 2, 1, 3])
             kinds = ["str", "str", "nan", "inf", "-inf"] + (["tuple_nan", "tuple_nan"] if k > 1 else [])
             shape = ["mixed", "first", "only", "mixed", "first", "mixed", "random", "mixed", "first", "none"][rng.randrange(10)]
             length = rng.randint(2, 10) if th else rng.randint(2, 7)
             case = dict(search=search, k=k, workers=rng.choice([1, 1, 2]), seed=rng.randint(0, 10 ** 6), pattern=gen_pattern(rng, k, length, shape, kinds))
             if search == "CBO":
                 case.update(surrogate=surrogates[i % len(surrogates)], ff=["min", "mean", "ignore"][(i // 2) % 3], n0=rng.choice([1, 2, 3]))
+                if case["surrogate"] in ("ET", "RF") and rng.random() < 0.5:
+                    names = [o for o in sorted(OPTIONS) if (k > 1 or not o.startswith("moo")) and (case["workers"] > 1 or not o.startswith("mps"))]
+                    case["option"] = rng.choice(names)
+            # 1..3 search() calls on the same object
+            total, ncalls = length + 1, rng.choice([1, 1, 2, 3])
+            if ncalls > 1 and total >= ncalls:
+                cuts = sorted(rng.sample(range(1, total), ncalls - 1))
+                case["calls"] = [b - a for a, b in zip([0] + cuts, cuts + [total])]
             yield case
     return g
 
@@ -1004,9 +1129,13 @@ def shrink_search(case):
             yield dict(case, pattern=pat[:i] + pat[i + 1:])
     if case["workers"] > 1:
         yield dict(case, workers=1)
+    if case.get("option"):
+        yield dict(case, option=None)
+    if case.get("calls"):
+        yield dict(case, calls=None)
     if case.get("surrogate") not in (None, "DUMMY"):
         yield dict(case, surrogate="DUMMY")
-    if case.get("n0", 1) > 1:
+    if case.get("n0", 1) > 1 and not case.get("option"):
         yield dict(case, n0=1)
     for i in range(len(pat)):
         if pat[i][0] == "ok" and pat[i][1] != [1.0] * len(pat[i][1]):
@@ -1153,6 +1282,143 @@ def shrink_peers(case):
         yield dict(case, surrogate="DUMMY")
 
 
+# ------------------------------------------------------------------------------------------------------------------
+# stream restart_searches: a search continued from a checkpoint that holds failed rows (CBO.fit_surrogate)
+# ------------------------------------------------------------------------------------------------------------------
+def run_restart(case):
+    import contextlib
+    import io
+
+    import pandas as pd
+    from deephyper.evaluator import Evaluator
+    from deephyper.hpo import CBO, HpProblem
+
+    k = case["k"]
+    outs1 = pattern_outputs(dict(k=k, pattern=case["checkpoint"]), 0)
+    outs2 = pattern_outputs(dict(k=k, pattern=case["pattern"]), 1)
+    props = {}
+
+    def make_run(outs, record):
+        async def run(job):
+            i = job["job_id"]
+            if record:
+                props[i] = dict(job.parameters)
+            if i < len(outs):
+                return outs[i]
+            return 1.0 if k == 1 else tuple([1.0] * k)
+        return run
+
+    def problem():
+        p = HpProblem()
+        p.add_hyperparameter((0.0, 10.0), "x")
+        p.add_hyperparameter((0, 7), "n")
+        p.add_hyperparameter(CHOICES, "c")
+        return p
+
+    out = dict(exc=None, stage=None, rows=None, props=None, batches=None, yi=None, ninit=None, yi_restart=None)
+    told = []
+    with tempfile.TemporaryDirectory(prefix="vp_c06_") as d, contextlib.redirect_stdout(io.StringIO()):
+        s1 = CBO(problem(), Evaluator.create(make_run(outs1, False), method="serial"), random_state=case["seed"], log_dir=os.path.join(d, "1"), surrogate_model="DUMMY")
+        s1.search(max_evals=len(outs1))
+        path = os.path.join(d, "1", "results.csv")
+        kw = dict(surrogate_model=case["surrogate"], filter_failures=case["ff"], n_initial_points=case["n0"], n_points=32)
+        if case["surrogate"] in ("ET", "RF"):
+            kw["surrogate_model_kwargs"] = dict(n_estimators=8)
+        s2 = CBO(problem(), Evaluator.create(make_run(outs2, True), method="serial"), random_state=case["seed"] + 1, log_dir=os.path.join(d, "2"), **kw)
+        orig_tell = s2.tell
+
+        def tell(results):
+            told.append([int(j.id.split(".")[1]) for j in results])
+            return orig_tell(results)
+
+        s2.tell = tell
+        try:
+            out["stage"] = "fit_surrogate"
+            s2.fit_surrogate(path if case["as_path"] else pd.read_csv(path))
+            out["yi_restart"] = list(s2._opt.yi) if s2._opt is not None else []
+            out["stage"] = "search"
+            df = s2.search(max_evals=len(outs2) + 1)
+        except Exception as e:
+            import traceback
+
+            out["exc"] = type(e).__name__
+            out["trace"] = traceback.format_exc()[-1500:]
+            return out
+        cols = [c for c in df.columns if c == "objective" or c.startswith("objective_")]
+        out["rows"] = [[int(r["job_id"]), [isinstance(r[c], str) and r[c].startswith("F") for c in cols]] for _, r in df.iterrows()]
+        out["cells"] = [[int(r["job_id"])] + [str(r[c]) for c in cols] for _, r in df.iterrows()]
+        out["props"] = [props[i] for i in sorted(props)]
+        out["batches"] = told
+        out["yi"] = list(s2._opt.yi)
+        out["ninit"] = int(s2._opt._n_initial_points)
+    return out
+
+
+def check_restart(case):
+    m = model()
+    toks = Toks()
+    k = case["k"]
+    outs1 = pattern_outputs(dict(k=k, pattern=case["checkpoint"]), 0)
+    outs2 = pattern_outputs(dict(k=k, pattern=case["pattern"]), 1)
+    f1 = [bool(m.call(F_REPORTED, enc_obj(o, toks))) for o in outs1]
+    failed = [i for i, o in enumerate(outs2) if m.call(F_REPORTED, enc_obj(o, toks))]
+    ck = "none" if not any(f1) else "all_failed" if all(f1) else "mixed"
+    sig = {"objectives": "single" if k == 1 else "multi", "ff": case["ff"], "checkpoint": ck}
+    res = dict(ok=True, kind="oracle", clause="", nontrivial=ck != "none", sig=sig,
+               desc=["surrogate=" + case["surrogate"], "ff=" + case["ff"], "objectives=" + sig["objectives"], "checkpoint=" + ck, "n0=%d" % case["n0"]])
+    r = run_restart(case)
+    if r["exc"]:
+        obs = [True, failed, [], [], [], []]
+    else:
+        dens = [Fraction(float(c["x"])).denominator for c in r["props"]]
+        scale = max(dens + [1])
+        pr = enc_props(r["props"], scale)
+        obs = [False, failed, r["rows"], [[0, 10 * scale], [0, 7], [0, len(CHOICES) - 1]], pr, pr]
+    code = m.call(F_OKSEARCH, obs)
+    if code:
+        clause = "exception:" + r["exc"] if code == 1 else SEARCH_CLAUSE.get(code, str(code))
+        return dict(res, ok=False, clause=clause, nontrivial=True,
+                    detail=dict(checkpoint_outputs=show(outs1), outputs=show(outs2), stage=r["stage"], exc=r["exc"], trace=r.get("trace"), table=r.get("cells"), failed_jobs=failed))
+    # correspondence: the optimizer's state = restart from the checkpoint's rows, then the batches told
+    ckpt = [m.call(F_ONDONE, [True, enc_obj(o, toks)]) for o in outs1]
+    dflt = 1.0 if k == 1 else tuple([1.0] * k)
+    hist = [[enc_obj(outs2[j] if j < len(outs2) else dflt, toks) for j in b] for b in r["batches"]]
+    pol = {"min": 0, "mean": 1, "ignore": 2}[case["ff"]]
+    n0_, yi0 = m.call(F_RESTART, [True, pol, case["n0"], ckpt, []])
+    if case["ff"] == "ignore" and r["yi_restart"] and not m.call(F_OKLIE, [enc_told(v) for v in r["yi_restart"]]):
+        return dict(res, ok=False, kind="oracle", clause="marker_told_under_ignore", nontrivial=True,
+                    detail=dict(checkpoint_outputs=show(outs1), told_by_fit_surrogate=show(r["yi_restart"])))
+    if len(yi0) != len(r["yi_restart"]) or not all(same_told(a, v) for a, v in zip(yi0, r["yi_restart"])):
+        return dict(res, ok=False, kind="corr", clause="restart_told", detail=dict(checkpoint_outputs=show(outs1), impl=show(r["yi_restart"]), model=yi0))
+    ninit, yi = m.call(F_RESTART, [True, pol, case["n0"], ckpt, hist])
+    if ninit != r["ninit"] or len(yi) != len(r["yi"]) or not all(same_told(a, v) for a, v in zip(yi, r["yi"])):
+        return dict(res, ok=False, kind="corr", clause="optimizer_state", detail=dict(checkpoint_outputs=show(outs1), outputs=show(outs2), batches=r["batches"], impl=[r["ninit"], show(r["yi"])], model=[ninit, yi]))
+    return res
+
+
+def gen_restart(quick_n, thorough_n):
+    def g(rng, tier):
+        n = thorough_n if tier == "thorough" else quick_n * 2 if tier == "search" else quick_n
+        for i in range(n):
+            k = rng.choice([1, 1, 2])
+            kinds = ["str", "str", "nan", "inf", "-inf"] + (["tuple_nan", "tuple_nan"] if k > 1 else [])
+            ck = gen_pattern(rng, k, rng.randint(1, 5), ["mixed", "only", "first", "mixed", "only", "none"][i % 6], kinds)
+            pat = gen_pattern(rng, k, rng.randint(1, 5), rng.choice(["mixed", "first", "only", "random"]), kinds)
+            yield dict(k=k, seed=rng.randint(0, 10 ** 6), surrogate=(["ET", "ET", "DUMMY", "RF"] if tier == "thorough" else ["ET", "ET", "DUMMY"])[i % (4 if tier == "thorough" else 3)],
+                       ff=["min", "mean", "ignore"][(i // 3) % 3], n0=rng.choice([1, 2, 3]), checkpoint=ck, pattern=pat, as_path=rng.random() < 0.5)
+    return g
+
+
+def shrink_restart(case):
+    for key in ("checkpoint", "pattern"):
+        pat = case[key]
+        for i in range(len(pat)):
+            if len(pat) > 1:
+                yield dict(case, **{key: pat[:i] + pat[i + 1:]})
+    if case["surrogate"] != "DUMMY" and case["surrogate"] != "ET":
+        yield dict(case, surrogate="ET")
+
+
 def streams(tier):
     th = tier == "thorough"
     return [
@@ -1161,6 +1427,7 @@ def streams(tier):
         Stream("filter_failures", gen_filter(3000 if th else 600), check_filter, shrink_ys, timeout=30),
         Stream("optimizer_tell", gen_opttell(2000 if th else 400), check_opttell, shrink_batches, timeout=60),
         Stream("regevo_tell", gen_regevo(400 if th else 100), check_regevo, shrink_hist, timeout=60),
-        Stream("searches", gen_searches(240, 2400), check_search, shrink_search, timeout=300),
+        Stream("searches", gen_searches(170, 2400), check_search, shrink_search, timeout=300),
         Stream("peer_searches", gen_peers(120, 800), check_peers, shrink_peers, timeout=120),
+        Stream("restart_searches", gen_restart(90, 600), check_restart, shrink_restart, timeout=120),
     ]
